@@ -63,7 +63,7 @@ def run(ctx):
     hooks.attach_m3(use_icontract=True)   # the derivation contracts as icontract post-conditions
     rng = ctx.rng
     quick = ctx.tier == "quick"
-    ntab = 200 if quick else 2500
+    ntab = 200 if quick else 8000
     for ti in range(ntab):
         t = tablegen.any_table(rng) if rng.random() < 0.6 else tablegen.random_table(rng)
         flagged = rng.random() < 0.08
